@@ -42,6 +42,7 @@ func c11Reasm(c *vlib.Ctx) {
 			p.Stall = 2
 			p.MaxStream = 20000
 		}
+		p.EarlyFIN = 4
 		h := asm.Gen(rd, p)
 		switch rd.Intn(6) {
 		case 0:
@@ -56,6 +57,7 @@ func c11Reasm(c *vlib.Ctx) {
 			h.TotalLimit = 10
 		}
 		r := newRRun(c, h)
+		r.noContent = h.Features["earlyfin"] // data past a FIN makes the content oracle of C09/C10 meaningless; lifecycle audits still apply
 		if rd.Chance(1, 2) {
 			r.keepPct, r.keepRand = []int{10, 40}[rd.Intn(2)], vlib.NewRand(rd.U64())
 		}
@@ -109,7 +111,7 @@ func c11Reasm(c *vlib.Ctx) {
 							continue
 						}
 						hf := v.C2S
-						if (ev.Seg.Dir != s.c2s) {
+						if ev.Seg.Dir != s.c2s {
 							hf = v.S2C
 						}
 						if !hf.Closed && hf.QueuedPages > h.PerConnLimit+pk {
